@@ -428,6 +428,7 @@ add(Contract("yarl._url:URL.with_suffix", [("self", URLT), ("suffix", UNION(STR,
 
 add(Contract("yarl._url:URL._make_child", [("self", URLT), ("paths", "strtuple"), ("encoded", BOOL)],
              spec=spec_url.make_child, requires=spec_url.make_child_requires, raises=(ValueError,), split_model="plist",
+             opaque=True, shape="URL",
              props=("C13", "C11", "C19"),
              note="'/' and joinpath for 0, 1 and 2 texts of any content, outside the normalising branch"))
 
@@ -440,22 +441,27 @@ for _name in ("user", "password", "path", "path_safe", "query_string", "fragment
                  note="the decoded accessor is the component's decoder applied to the raw component (decoder itself: bounded, C06)"))
 
 # ---------------------------------------------------------------- small constructors and accessors
-add(Contract("yarl._url:from_parts_uncached", [("scheme", STR), ("netloc", STR), ("path", STR), ("query", STR), ("fragment", STR)],
-             spec=spec_url.from_parts_spec, props=("C08", "C09", "C19"),
-             note="a fresh object with exactly these parts and an empty memo"))
 add(Contract("yarl._url:build_pre_encoded_url",
              [("scheme", STR), ("authority", STR), ("user", OPT(STR)), ("password", OPT(STR)), ("host", STR), ("port", OPT(INT)),
               ("path", STR), ("query_string", STR), ("fragment", STR)],
              spec=spec_url.build_pre_encoded, requires=spec_url.bpe_requires, transparent=("yarl._parse:make_netloc",),
              props=("C17", "C09", "C19"),
              note="build(..., encoded=True): parts taken as they are, default port not stored"))
+add(Contract("yarl._url:URL.authority", [("self", URLT)], spec=spec_url.decoded_authority, requires=spec_url.netloc_ok,
+             props=("C06", "C19")))
 for _name in ("raw_path_qs", "path_qs", "host"):
     add(Contract(f"yarl._url:URL.{_name}", [("self", URLT)], spec=getattr(spec_url, _name),
                  requires=spec_url.netloc_ok if _name == "host" else None,
                  props=("C06", "C19") + (("C16",) if _name == "host" else ()) + (("C07",) if _name == "raw_path_qs" else ())))
 
+add(Contract("yarl._url:URL.__truediv__", [("self", URLT), ("name", UNION(STR, CONST(1, None)))],
+             spec=spec_url.truediv, requires=spec_url.truediv_requires, raises=(ValueError,), props=("C13", "C19"),
+             note="u / s is _make_child((s,)); a non-str operand gives NotImplemented"))
+add(Contract("yarl._url:URL.joinpath", [("self", URLT), ("other", ("varargs", STR)), ("encoded", BOOL)],
+             spec=spec_url.joinpath, requires=spec_url.joinpath_requires, raises=(ValueError,), props=("C13", "C19"),
+             note="joinpath(*texts, encoded=) is _make_child(texts, encoded) -- so u / s == u.joinpath(s)"))
 add(Lemma(spec_url.lemma_joinpath_two_steps, [("u", URLT), ("a", STR), ("b", STR), ("encoded", BOOL)],
-          requires=spec_url.lemma_joinpath_requires, props=("C13",),
+          requires=spec_url.lemma_joinpath_requires, props=("C13",), transparent=("yarl._url:URL._make_child",),
           note="joinpath(a, b) == joinpath(a).joinpath(b), on the specification that _make_child refines"))
 
 # ---------------------------------------------------------------- reference resolution (C14)
@@ -492,3 +498,21 @@ add(Contract("yarl._url:URL.with_query", [("self", URLT), ("args", ("varargs", _
              note="None and str arguments (mapping / sequence forms go through external multidict and are not under contract)"))
 add(Contract("yarl._url:URL.extend_query", [("self", URLT), ("args", ("varargs", _QARG))], spec=spec_query.extend_query_args,
              raises=(TypeError, ValueError), props=("C12", "C11", "C19", "C02")))
+
+
+# ---------------------------------------------------------------- sanity of the specification modules
+def _no_shadowed_specs():
+    """a specification function defined twice in one module silently replaces the first definition
+    (it happened once: a new `authority` shadowed a helper of the same name) -- refuse to load"""
+    import ast as _a
+    import os as _o
+    here = _o.path.dirname(_o.path.abspath(__file__))
+    for fn in _o.listdir(here):
+        if fn.startswith("spec_") and fn.endswith(".py"):
+            names = [n.name for n in _a.parse(open(_o.path.join(here, fn)).read()).body if isinstance(n, _a.FunctionDef)]
+            dup = sorted({n for n in names if names.count(n) > 1})
+            if dup:
+                raise RuntimeError(f"contracts/{fn}: specification functions defined twice: {dup}")
+
+
+_no_shadowed_specs()
